@@ -427,13 +427,23 @@ func DecodeUnverifiedBaseResponse(encodedResponse string) (*types.UnverifiedBase
 
 	err = maybeDeflate(raw, defaultMaxDecompressedResponseSize, func(maybeXML []byte) error {
 		response = &types.UnverifiedBaseResponse{}
-		return xml.Unmarshal(maybeXML, response)
+		return unmarshalDocument(maybeXML, response)
 	})
 	if err != nil {
 		return nil, err
 	}
 
 	return response, nil
+}
+
+// unmarshalDocument decodes maybeXML into v only if it is a well-formed document as a whole.
+// xml.Unmarshal alone stops after the first element and ignores whatever follows, so octets
+// that validation would inflate (parseResponse reads the whole input) could be decoded raw here.
+func unmarshalDocument(maybeXML []byte, v interface{}) error {
+	if err := etree.NewDocument().ReadFromBytes(maybeXML); err != nil {
+		return err
+	}
+	return xml.Unmarshal(maybeXML, v)
 }
 
 // maybeDeflate invokes the passed decoder over the passed data. If an error is
@@ -508,7 +518,7 @@ func DecodeUnverifiedLogoutResponse(encodedResponse string) (*types.LogoutRespon
 
 	err = maybeDeflate(raw, defaultMaxDecompressedResponseSize, func(maybeXML []byte) error {
 		response = &types.LogoutResponse{}
-		return xml.Unmarshal(maybeXML, response)
+		return unmarshalDocument(maybeXML, response)
 	})
 	if err != nil {
 		return nil, err
